@@ -40,7 +40,7 @@ def probe_oracle(p: bytes) -> dict:
 
 
 def run_discovery(plan, *, target="255.255.255.255", single=False, auto_connect=False, tcp_devices=None, timeout=5, cloud_client=None,
-                  account=None, password=None):
+                  account=None, password=None, region=None, keep_lock=False):
     """plan: list of (delay_s, src_ip, src_port, data) datagrams sent after the first probe is seen.
     Returns the vector for Trace_Disc (probes, arrivals in delivery order, result / exception)."""
     from msmart.discover import Discover
@@ -63,12 +63,14 @@ def run_discovery(plan, *, target="255.255.255.255", single=False, auto_connect=
     if tcp_devices:
         tcp_devices(loop, net)
     vec = {"target": target, "exc": "", "result": [], "probes": [], "arrivals": arrivals}
-    Discover._lock = None
+    Discover._lock = None               # the lock belongs to the event loop of the previous run
 
     async def go():
         kw = dict(timeout=timeout, auto_connect=auto_connect)
         if cloud_client is not None:
             kw.update(get_async_client=cloud_client, account=account, password=password)
+        if region is not None:
+            kw.update(region=region)
         try:
             if single:
                 r = await Discover.discover_single(target, **kw)
